@@ -3,6 +3,7 @@ import ast
 
 from ..core import AnalysisError
 from .. import pyfront as P
+from .. import gsa
 from .. import wattr, rattr, roundtrip
 from ..absint import Opaque
 
@@ -93,6 +94,21 @@ def models(ctx):
     w = wattr.WriterModel(py)
     r = rattr.ReaderModel(py, 'girparser', 'GIRParser', {'_parse_api': {'root': {'repository'}}})
     return w, r
+
+
+def relative_name_ok(ctx):
+    """GIRWriter._type_to_name returns the GI name minus exactly the prefix `<namespace name>.` when (and only when) the name starts with that prefix"""
+    TT = gsa.summarise(ctx, 'girwriter', 'GIRWriter._type_to_name', inline_only=())
+    tp = TT.P(1)
+    G = '%s.target_giname' % tp
+    PFX = "self._namespace.name + '.'"
+    SW = '%s.startswith(%s)' % (G, PFX)
+    rets = sorted(set(gsa._unparse(n) for g, n in TT.returns))
+    stripped = [(g, n) for g, n in TT.returns if gsa._unparse(n) == '%s[len(%s):]' % (G, PFX)]
+    plain = [(g, n) for g, n in TT.returns if gsa._unparse(n) == G]
+    ok = bool(stripped) and bool(plain) and all(SW in gsa.atoms(g) and not gsa.can_hold(g, {SW: False}) for g, n in stripped) and \
+        all(not gsa.can_hold(g, {SW: True}) for g, n in plain if SW in gsa.atoms(g))
+    return ok, rets
 
 
 def check(ctx):
@@ -206,16 +222,7 @@ def check(ctx):
     # ------------------------------------------------------------------ R3 relative type names
     r3 = ctx.rule('R3', 'namespace-relative names are written and resolved with the same rule', floor=3)
     ttn = py.func('girwriter', 'GIRWriter._type_to_name')
-    # writer: strips exactly "<ns>." prefix
-    pre = [v for t, v, st in P.stores_in(ttn) if isinstance(t, ast.Name) and P.src(v) == "self._namespace.name + '.'"]
-    sw = [c for c in P.calls_in(ttn) if isinstance(c.func, ast.Attribute) and c.func.attr == 'startswith']
-    rets = [P.src(n.value) for n in P.walk_no_nested(ttn) if isinstance(n, ast.Return)]
-    pv = None
-    for t, v, st in P.stores_in(ttn):
-        if isinstance(t, ast.Name) and P.src(v) == "self._namespace.name + '.'":
-            pv = t.id
-    ok = pv is not None and len(sw) == 1 and P.src(sw[0].args[0]) == pv and P.src(sw[0].func.value) == 'typeval.target_giname' \
-        and sorted(rets) == sorted(['typeval.target_giname[len(%s):]' % pv, 'typeval.target_giname'])
+    ok, rets = relative_name_ok(ctx)
     r3.check(ok, 'writer strips exactly "<Namespace>."', wm.rel, ttn.lineno,
              '_type_to_name does not strip exactly the prefix "<namespace name>." : a foreign namespace whose name merely starts with '
              'this namespace\'s name (Gd vs Gdk) loses its qualifier and is read back as a local type', detail=rets)
